@@ -30,6 +30,8 @@ mod system;
 mod ticket;
 mod work;
 mod downloader;
+#[cfg(feature = "verif")]
+mod verif_shim;
 
 #[derive(Parser)]
 struct BuildConfig
